@@ -360,7 +360,11 @@ class _Component:
 
     def _solv_get_warns(self, vi, vo, ii, io, ta, phase, phase_conf):
         """Check for warnings"""
-        if self._component_type not in [_ComponentTypes.SOURCE, _ComponentTypes.SLOSS]:
+        if self._component_type not in [
+            _ComponentTypes.SOURCE,
+            _ComponentTypes.SLOSS,
+            _ComponentTypes.RECTIFIER,
+        ]:
             if phase_conf:
                 if phase not in phase_conf:
                     return ""
